@@ -969,6 +969,7 @@ func (s *Service) runPipeline(ctx context.Context, rp *runnablePipeline) error {
 	s.runningPipelines.Set(rp.pipeline.ID, rp)
 	s.publishMu.Unlock()
 
+	prevStatus, prevError := rp.pipeline.GetStatus(), rp.pipeline.Error
 	err := s.pipelines.UpdateStatus(ctx, rp.pipeline.ID, pipeline.StatusRunning, "")
 	if err != nil {
 		// Roll back the publication above: this run never went live, so it
@@ -987,6 +988,15 @@ func (s *Service) runPipeline(ctx context.Context, rp *runnablePipeline) error {
 		// them, otherwise the connectors stay open and keep running while
 		// Stop reports "not running" and Start "already running".
 		_ = s.stopForceful(ctx, rp)
+		// UpdateStatus changes the instance before it writes it, so the
+		// refused write left the pipeline reported as running although this
+		// run is gone (and the store still holds the previous status): every
+		// later Start would be refused with "pipeline is running" and every
+		// Stop with "not running". Put the previous status back; the
+		// instance is restored even if the store refuses this write too.
+		if restoreErr := s.pipelines.UpdateStatus(ctx, rp.pipeline.ID, prevStatus, prevError); restoreErr != nil {
+			s.logger.Warn(ctx).Err(restoreErr).Str(log.PipelineIDField, rp.pipeline.ID).Msg("could not store the restored pipeline status")
+		}
 		return err
 	}
 
